@@ -1238,6 +1238,14 @@ def minimise(spec, W, clause, budget=500, deadline=None):
     return cur, W, best
 
 
+def _min_job(args):
+    clause, spec, W, b = args
+    s2, W2, b2 = minimise(spec, W, clause, budget=400)
+    if b2 is None:
+        s2, W2, b2 = spec, W, b
+    return clause, s2, W2, b2
+
+
 TIERS = {"quick": 2700, "thorough": 2700 * 40}
 
 
@@ -1276,16 +1284,16 @@ def run(tier: str, seed: int) -> dict:
         for k, v in p["fails"].items():
             cands.setdefault(k, []).extend(v)
     failures = []
-    for clause in sorted(cands):
-        seen = set()
-        for _sz, spec, W, b in _pick(cands[clause]):
-            s2, W2, b2 = minimise(spec, W, clause, deadline=t0 + (22 if tier == "quick" else 540))
-            if b2 is None:
-                s2, W2, b2 = spec, W, b
+    todo = [(clause, spec, W, b) for clause in sorted(cands) for _sz, spec, W, b in _pick(cands[clause])]
+    with ctx.Pool(min(procs, max(1, len(todo)))) as pool:      # minimisation is bounded by evaluations, not by time
+        done = pool.map(_min_job, todo, chunksize=1)
+    seen = set()
+    for clause, s2, W2, b2 in done:
+        if True:
             key = _key(s2, W2)
-            if key in seen:
+            if clause + key in seen:
                 continue
-            seen.add(key)
+            seen.add(clause + key)
             failures.append({"check": clause, "what": b2["what"], "input_key": key,
                              "input": {"spec": s2, "W": W2, "structural_minimum": case_smin(s2),
                                        "replay": "vf.rtc.props.c08.check_case(spec, W)"},
